@@ -1,8 +1,149 @@
 import JokerVerif.Drive.Common
-/-! Driver handlers for C12 (to be filled in). -/
+import JokerVerif.Model.Store
+/-! Driver handlers for C12: an operation history is run through the `Store` model (values are `Float`s
+travelling as 64-bit patterns).
+
+`store.run`:
+```
+{"op":"store.run","fmt":"hdf5"|"fits",
+ "tables":[{"cols":[{"name":s,"unit":s,"dtype":s,"vals":[bits…]}…],"tref":s|null,"pt":n,"no":n}…],
+ "conv":[[from,to,bits|null]…],
+ "ops":[{"k":"write","t":i,"ov":b,"ap":b} | {"k":"read"} |
+        {"k":"batch","cols":[s…],"units":[[name,unit]…],
+         "sel":{"slice":[a|null,b|null,st|null]} | {"idx":[i…]} |
+               {"random":size,"choice":[i…]|null,"n":recN,"size":recSize}}…]}
+→ {"results":[{"ok":true} | {"err":kind} | {"table":T} | {"arr":[[bits…]…]}…],"state":T|null}
+```
+For a random read the harness passes what it recorded at the generator: the arguments `(n, size)` of the
+`choice` call and its answer; the model's chooser answers only the call with exactly those arguments. -/
 open Lean Drive
 namespace Drive
 
-def storeOps : List (String × H) := []
+def errName : Store.Err → String
+  | .exists => "exists" | .incompatible => "incompatible" | .noFile => "nofile" | .notImpl => "notimpl"
+  | .key => "key" | .index => "index" | .value => "value" | .units => "units" | .choice => "choice"
+
+def optStr (j : Json) (k : String) : Except String (Option String) :=
+  match j.getObjVal? k with
+  | .ok .null => .ok none
+  | .ok v => (fromJson? v : Except String String).map some
+  | .error _ => .ok none
+
+def optIntJ (v : Json) : Except String (Option Int) :=
+  match v with
+  | .null => .ok none
+  | v => (fromJson? v : Except String Int).map some
+
+def parseCol (j : Json) : Except String (Store.Col Float) := do
+  let name ← getStr j "name"; let unit ← getStr j "unit"; let dtype ← getStr j "dtype"
+  let vals ← getFloats j "vals"
+  return ⟨⟨name, unit, dtype⟩, vals.toList⟩
+
+def parseTable (j : Json) : Except String (Store.Table Float) := do
+  let cols ← (← getArr j "cols").toList.mapM parseCol
+  let tref ← optStr j "tref"
+  let pt ← getNat j "pt"; let no ← getNat j "no"
+  return ⟨cols, ⟨tref, pt, no⟩⟩
+
+def jTable (t : Store.Table Float) : Json :=
+  Json.mkObj [
+    ("cols", Json.arr (t.cols.map fun c => Json.mkObj [("name", c.hdr.name), ("unit", c.hdr.unit),
+      ("dtype", c.hdr.dtype), ("vals", jFloats c.vals)]).toArray),
+    ("tref", match t.md.tRef with | some s => Json.str s | none => Json.null),
+    ("pt", jNat t.md.polyTrend), ("no", jNat t.md.nOffsets)]
+
+def jState : Store.State Float → Json
+  | none => Json.null
+  | some t => jTable t
+
+def parseConv (a : Array Json) : Except String (String → String → Option Float) := do
+  let rows ← a.toList.mapM fun r => do
+    let v ← (fromJson? r : Except String (Array Json))
+    if v.size != 3 then throw "conv row" else
+    let f ← (fromJson? v[0]! : Except String String)
+    let t ← (fromJson? v[1]! : Except String String)
+    let x ← match v[2]! with
+      | .null => pure none
+      | b => (fromJson? b : Except String Nat).map fun n => some (floatOfBits n)
+    pure ((f, t), x)
+  return fun f t => match rows.lookup (f, t) with
+    | some x => x
+    | none => none
+
+def parsePairs (a : Array Json) : Except String (List (String × String)) :=
+  a.toList.mapM fun r => do
+    let v ← (fromJson? r : Except String (Array String))
+    if v.size != 2 then throw "units row" else pure (v[0]!, v[1]!)
+
+/-- selection + the chooser the random branch may consult -/
+def parseSel (j : Json) : Except String (Store.Sel × (Nat → Nat → Option (List Nat))) := do
+  let noChoice : Nat → Nat → Option (List Nat) := fun _ _ => none
+  match j.getObjVal? "slice" with
+  | .ok v =>
+    let a ← (fromJson? v : Except String (Array Json))
+    if a.size != 3 then throw "slice" else
+    return (.slice (← optIntJ a[0]!) (← optIntJ a[1]!) (← optIntJ a[2]!), noChoice)
+  | .error _ =>
+  match j.getObjVal? "idx" with
+  | .ok v => return (.idx (← (fromJson? v : Except String (Array Int))).toList, noChoice)
+  | .error _ =>
+    let size ← getNat j "random"
+    let recN ← optNat j "n"; let recSize ← optNat j "size"
+    let choice ← match j.getObjVal? "choice" with
+      | .ok .null => pure none
+      | .ok v => (fromJson? v : Except String (Array Nat)).map fun a => some a.toList
+      | .error _ => pure none
+    let chooser : Nat → Nat → Option (List Nat) := fun n s =>
+      if recN == some n && recSize == some s then choice else none
+    return (.random size, chooser)
+
+def storeRunOp : H := fun j => do
+  let fmt ← match (← getStr j "fmt") with
+    | "hdf5" => pure Store.Fmt.hdf5
+    | "fits" => pure Store.Fmt.fits
+    | s => throw s!"fmt {s}"
+  let tables ← (← getArr j "tables").mapM parseTable
+  let conv ← parseConv (← getArr j "conv")
+  let ops ← getArr j "ops"
+  let mut s : Store.State Float := none
+  let mut out : Array Json := #[]
+  for o in ops do
+    match (← getStr o "k") with
+    | "write" =>
+      let ti ← getNat o "t"; let ov ← getBool o "ov"; let ap ← getBool o "ap"
+      match tables[ti]? with
+      | none => throw "table index"
+      | some t =>
+        let (s', r) := Store.step fmt conv s (.write t ov ap)
+        s := s'
+        out := out.push (match r with
+          | .done => Json.mkObj [("ok", true)]
+          | .err e => Json.mkObj [("err", errName e)]
+          | _ => Json.null)
+    | "read" =>
+      let (_, r) := Store.step fmt conv s .read
+      out := out.push (match r with
+        | .table t => Json.mkObj [("table", jTable t)]
+        | .err e => Json.mkObj [("err", errName e)]
+        | _ => Json.null)
+    | "batch" =>
+      let cols ← (o.getObjValAs? (Array String) "cols")
+      let units ← parsePairs (← getArr o "units")
+      let (sel, chooser) ← parseSel (← o.getObjVal? "sel")
+      match Store.readBatch chooser conv s ⟨cols.toList, sel, units⟩ with
+      | .ok a => out := out.push (Json.mkObj [("arr", Json.arr (a.map jFloats).toArray)])
+      | .error e => out := out.push (Json.mkObj [("err", errName e)])
+    | k => throw s!"op kind {k}"
+  return Json.mkObj [("results", Json.arr out), ("state", jState s)]
+
+/-- the rows a selection denotes (used by the harness to cross-check its own row oracle) -/
+def storeRowsOp : H := fun j => do
+  let n ← getNat j "n"
+  let (sel, chooser) ← parseSel (← j.getObjVal? "sel")
+  match Store.resolve chooser n sel with
+  | .ok rows => return Json.mkObj [("rows", jNats rows)]
+  | .error e => return Json.mkObj [("err", errName e)]
+
+def storeOps : List (String × H) := [("store.run", storeRunOp), ("store.rows", storeRowsOp)]
 
 end Drive
